@@ -942,6 +942,7 @@ impl Runner {
             self.state_changing_ops += 1;
             crate::oracles::note_ca_deleted(self, inst, name);
             if self.oracles.c19 {
+                self.ext.c19_deleted_inst = Some(inst);
                 crate::c19::after_delete(self, name);
             }
             self.model.cas.remove(&ca_key(inst, name));
